@@ -16,6 +16,7 @@
 #include <stdarg.h>
 #include <errno.h>
 #include <unistd.h>
+#include <sys/wait.h>
 
 #define GW_MAXARGS 8
 #define GW_ARGLEN 48
@@ -180,6 +181,9 @@ static void gw_mismatch(const int *prog, int n, int step, const char *sig, const
     fflush(stdout);
 }
 
+static uint64_t gw_skip;          /* programs with ordinal < gw_skip are enumerated but not executed (resume after a child died) */
+static uint64_t gw_ordinal;
+static int gw_forked;             /* child of the fork/resume supervisor: a mismatch ends the child, the supervisor resumes after it */
 /* ---- current program (for sanitizer death callback) ---- */
 static const int *gw_cur_prog;
 static int gw_cur_n, gw_cur_step;
@@ -192,6 +196,7 @@ static void gw_death(void) {
     snprintf(sig, sizeof sig, "sanitizer-%s", gw_cur_prog && gw_cur_step < gw_cur_n ? gw_edges[gw_cur_prog[gw_cur_step]].act : "end");
     gw_max_reports = 1 << 30;
     gw_mismatch(gw_cur_prog, gw_cur_n, gw_cur_step, sig, "sanitizer/crash report while executing this step (see driver output)");
+    if (gw_forked) { printf("RESUME %llu\n", (unsigned long long)gw_ordinal); }
     gw_print_stats(0);
 }
 static void gw_install_death(void) { __sanitizer_set_death_callback(gw_death); }
@@ -213,16 +218,25 @@ static int gw_sibling_matches(int eid, int fixed, const char *obs, const char *p
     return 0;
 }
 
+static void gw_resume_exit(void) {
+    printf("RESUME %llu\n", (unsigned long long)gw_ordinal);
+    gw_print_stats(0);
+    fflush(stdout);
+    _exit(77);
+}
 static int gw_exec(const int *prog, int n) {
+    int skipped = gw_ordinal++ < gw_skip;
+    for (int i = 0; i < n; i++) if (!gw_edge_seen[prog[i]]) { gw_edge_seen[prog[i]] = 1; gw_edges_covered++; }
+    int fresh = gw_hset_add(gw_hash(prog, n));
+    if (skipped) return 0;                 /* executed by an earlier child of the supervisor */
     gw_cur_prog = prog; gw_cur_n = n; gw_cur_step = 0;
     gw_programs++;
     gw_steps += n;
-    for (int i = 0; i < n; i++) if (!gw_edge_seen[prog[i]]) { gw_edge_seen[prog[i]] = 1; gw_edges_covered++; }
-    if (gw_hset_add(gw_hash(prog, n))) {
+    if (fresh) {
         gw_distinct++;
         if (gw_is_nontrivial(prog, n)) {
             gw_nontrivial++;
-            if (gw_samples_left > 0 && n >= 3) {
+            if (gw_samples_left > 0 && n >= 3 && !gw_skip) {
                 char buf[2048];
                 gw_fmt_prog(buf, sizeof buf, prog, n);
                 printf("SAMPLE %s\n", buf);
@@ -230,16 +244,22 @@ static int gw_exec(const int *prog, int n) {
             }
         }
     }
-    return gw_run(prog, n);
+    int rc = gw_run(prog, n);
+    if (rc == 1 && gw_forked) gw_resume_exit();
+    return rc;
 }
 
 /* ---- optional: every program must end in a terminal (dead-end) state (drivers that cannot abandon a run midway) ---- */
 static int gw_need_terminal;
+static int (*gw_target_fn)(int state);   /* optional: which states count as terminal for completion (default: dead ends) */
 static int *gw_to_term;      /* next edge on a shortest path to a dead-end state, -1 at dead ends, -2 unreachable */
 static void gw_build_to_term(void) {
     gw_to_term = malloc(sizeof(int) * gw_nstates);
     int *dist = malloc(sizeof(int) * gw_nstates);
-    for (int i = 0; i < gw_nstates; i++) { gw_to_term[i] = gw_states[i].nedges == 0 ? -1 : -2; dist[i] = gw_states[i].nedges == 0 ? 0 : 1 << 30; }
+    for (int i = 0; i < gw_nstates; i++) {
+        int t = gw_target_fn ? gw_target_fn(i) : gw_states[i].nedges == 0;
+        gw_to_term[i] = t ? -1 : -2; dist[i] = t ? 0 : 1 << 30;
+    }
     for (int changed = 1; changed;) {
         changed = 0;
         for (int e = 0; e < gw_nedges; e++) {
@@ -259,7 +279,7 @@ static int gw_complete(int *prog, int len, int cap) {
 
 /* all maximal paths of length <= D from every initial state (every path <= D is a prefix of one) */
 static void gw_dfs(int st, int *prog, int depth, int D, uint64_t budget) {
-    if (gw_programs >= budget) return;
+    if (gw_ordinal >= budget) return;
     gw_state *s = &gw_states[st];
     if (depth == D || s->nedges == 0) {
         if (depth > 0) {
@@ -280,12 +300,12 @@ static void gw_dfs(int st, int *prog, int depth, int D, uint64_t budget) {
 
 static int gw_paths(int D, uint64_t budget) {
     int *prog = calloc(D + gw_nstates + 4, sizeof(int));
-    uint64_t before = gw_programs;
+    uint64_t before = gw_ordinal;
     gw_obs_mode = 1;
     for (int i = 0; i < gw_ninit; i++) gw_dfs(gw_inits[i], prog, 0, D, budget);
     gw_obs_mode = 0;
     free(prog);
-    return gw_programs - before < budget;   /* 1 = enumeration complete */
+    return gw_ordinal - before < budget;   /* 1 = enumeration complete */
 }
 
 /* edge cover: BFS tree from the inits gives a shortest prefix to every state; for every edge run prefix+edge (+ tail) */
@@ -408,6 +428,34 @@ static int gw_run(const int *prog, int n) {
 }
 #endif
 
+/* replay one recorded program: lines "Act(arg,arg)" (anything after whitespace is ignored, '#' lines skipped) */
+static int gw_verbose;
+static int gw_replay_file(const char *path) {
+    FILE *f = fopen(path, "r");
+    if (!f) { fprintf(stderr, "cannot open %s\n", path); return 2; }
+    int *prog = malloc(sizeof(int) * 100000), n = 0, cur = gw_inits[0];
+    char line[1024];
+    while (fgets(line, sizeof line, f)) {
+        if (line[0] == '#' || line[0] == '\n') continue;
+        line[strcspn(line, " \t\n")] = 0;
+        int found = -1;
+        for (int k = 0; k < gw_states[cur].nedges; k++) {
+            char lab[256];
+            gw_fmt_edge(lab, sizeof lab, gw_states[cur].first + k);
+            if (!strcmp(lab, line)) { found = gw_states[cur].first + k; break; }
+        }
+        if (found < 0) { fprintf(stderr, "replay: step %d '%s' is not an edge of the current spec state (graph changed?)\n", n, line); return 2; }
+        prog[n++] = found;
+        cur = gw_edges[found].dst;
+    }
+    fclose(f);
+    gw_verbose = 1;
+    int rc = gw_exec(prog, n);
+    printf("REPLAY rc=%d\n", rc);
+    gw_print_stats(1);
+    return rc ? 1 : 0;
+}
+
 /* standard CLI:  <table> <replaydir> <tag> <D> <budget> <walks> <walklen> <seed> */
 static int gw_main(int argc, char **argv) {
     if (argc < 9) { fprintf(stderr, "usage: %s table replaydir tag D budget walks walklen seed\n", argv[0]); return 2; }
@@ -415,11 +463,54 @@ static int gw_main(int argc, char **argv) {
     gw_install_death();
     gw_replay_dir = argv[2];
     gw_tag = argv[3];
+    if (getenv("GW_REPLAY")) return gw_replay_file(getenv("GW_REPLAY"));
     int D = atoi(argv[4]);
     uint64_t budget = strtoull(argv[5], NULL, 10);
     uint64_t walks = strtoull(argv[6], NULL, 10);
     int L = atoi(argv[7]);
     unsigned seed = (unsigned)strtoul(argv[8], NULL, 10);
+    if (getenv("GW_FORK")) {
+        /* supervisor: run the enumeration in a child; when the child dies on a mismatch/crash, resume after that program */
+        uint64_t skip = 0;
+        int max_children = getenv("GW_MAX_CHILDREN") ? atoi(getenv("GW_MAX_CHILDREN")) : 200;
+        for (int c = 0; c < max_children; c++) {
+            int pfd[2];
+            if (pipe(pfd)) return 2;
+            fflush(stdout);
+            pid_t pid = fork();
+            if (pid == 0) {
+                close(pfd[0]);
+                dup2(pfd[1], 1);
+                close(pfd[1]);
+                gw_forked = 1; gw_skip = skip;
+                unsetenv("GW_FORK");
+                int complete = 1;
+                if (D > 0) complete = gw_paths(D, budget);
+                gw_cover(getenv("GW_COVER_TAIL") ? atoi(getenv("GW_COVER_TAIL")) : 4, seed);
+                if (walks) gw_walks(walks, L, seed + 17);
+                gw_print_stats(complete);
+                fflush(stdout);
+                _exit(0);
+            }
+            close(pfd[1]);
+            FILE *in = fdopen(pfd[0], "r");
+            char *line = NULL; size_t cap = 0; long long resume = -1;
+            while (getline(&line, &cap, in) > 0) {
+                if (!strncmp(line, "RESUME ", 7)) resume = atoll(line + 7);
+                else fputs(line, stdout);
+            }
+            free(line);
+            fclose(in);
+            int st = 0;
+            waitpid(pid, &st, 0);
+            if (WIFEXITED(st) && WEXITSTATUS(st) == 0) return 0;
+            if (resume < 0) { printf("MISMATCH sig=driver-died replay=- :: child ended with status %d without a resume point\n", st); return 1; }
+            skip = (uint64_t)resume;     /* gw_ordinal was already incremented past the failing program */
+        }
+        printf("NOTE too many child restarts; enumeration truncated\n");
+        gw_print_stats(0);
+        return 0;
+    }
     int complete = 1;
     if (D > 0) complete = gw_paths(D, budget);
     gw_cover(getenv("GW_COVER_TAIL") ? atoi(getenv("GW_COVER_TAIL")) : 4, seed);
